@@ -305,9 +305,9 @@ def tlc_edges(spec_rel, cfg, timeout=900, env=None, cache=True, simulate=None, d
         groups = []
         for e in raw:
             k = json.dumps([dsort(e["s"]), e["sa"]], sort_keys=True)
-            if groups and groups[-1][0] == k and e["sa"]["a"] != "init":
-                groups[-1][1].append(e)
-            elif groups and groups[-1][0] == k and e["sa"]["a"] == "init" and len(groups[-1][1]) and False:
+            # (consecutive records from the initial state are the candidates of one first step as well: a behaviour has at
+            # least two steps, so two behaviours never follow each other with only init-sourced records in between)
+            if groups and groups[-1][0] == k:
                 groups[-1][1].append(e)
             else:
                 groups.append((k, [e]))
